@@ -46,6 +46,11 @@ type Settings struct {
 	// carries and no others (RFC 7540 6.5.3), so the receiver has to tell a
 	// parameter that was sent from one that merely has its default here.
 	present uint8
+	// tableSizeLow is the smallest SETTINGS_HEADER_TABLE_SIZE the frame
+	// carried. A frame may carry a parameter more than once and its values are
+	// applied in order (RFC 7540 6.5.3); for this one the low point matters,
+	// because the encoder has to announce it (RFC 7541 4.2).
+	tableSizeLow uint32
 }
 
 func (st *Settings) Type() FrameType {
@@ -65,6 +70,7 @@ func (st *Settings) Reset() {
 	st.ack = false
 	st.hasWindowSize = false
 	st.present = 0
+	st.tableSizeLow = defaultHeaderTableSize
 }
 
 // CopyTo copies st fields to st2.
@@ -79,6 +85,7 @@ func (st *Settings) CopyTo(st2 *Settings) {
 	st2.headerSize = st.headerSize
 	st2.hasWindowSize = st.hasWindowSize
 	st2.present = st.present
+	st2.tableSizeLow = st.tableSizeLow
 }
 
 // applyTo changes in dst the parameters that were present in the frame st was
@@ -224,6 +231,10 @@ func (st *Settings) Read(d []byte) error {
 
 		switch key {
 		case HeaderTableSize:
+			if !st.has(HeaderTableSize) || value < st.tableSizeLow {
+				st.tableSizeLow = value
+			}
+
 			st.tableSize = value
 		case EnablePush:
 			if value != 0 && value != 1 {
